@@ -215,6 +215,9 @@ class Crazyflie():
         if (self.link is not None):
             self.link.close()
         self.link = None
+        for timer in self._answer_patterns.values():
+            timer.cancel()
+        self._answer_patterns = {}
         if (self.state == State.INITIALIZED):
             self.connection_failed.call(self.link_uri, errmsg)
         elif (self.state == State.CONNECTED or
